@@ -751,6 +751,14 @@ class Crate:
             if not bs or any(b.name == n for b in bs):
                 continue
             cands = [b for b in bs if b.name not in known[f] and [b.local_ty(l) for l in range(1, b.argc + 1)] + ["->", b.local_ty(0)] == sig]
+            def same_sig_unordered(b):
+                return sorted(b.local_ty(l) for l in range(1, b.argc + 1)) == sorted(sig[:-2]) and b.local_ty(0) == sig[-1]
+            if not cands:
+                cands = [b for b in bs if b.name not in known[f] and same_sig_unordered(b)]
+            if not cands:
+                # moved to another file of the crate (free function -> method of the type it works on, new submodule ..)
+                allknown = set().union(*known.values()) if known else set()
+                cands = [b for bs2 in by_file.values() for b in bs2 if b.name not in allknown and same_sig_unordered(b)]
             if len(cands) == 1:
                 self.by_name[n].append(cands[0])
                 self.aliases[cands[0].id] = n
@@ -1412,7 +1420,7 @@ def inline_view(crate, body, depth=3, keep=(), policy=None, max_blocks=1500):
             continue
         cal = Callee(t["func"])
         tgt = cal.target
-        if tgt not in pol or tgt in keep or (cal.name in keep) or tgt == body.id or t["target"] is None:
+        if tgt not in pol or tgt in keep or (cal.name in keep) or (getattr(crate, "aliases", {}).get(tgt) in keep) or tgt == body.id or t["target"] is None:
             continue
         cj = crate.bodies[tgt].j
         if len(t["args"]) != cj["argc"]:
@@ -1471,6 +1479,10 @@ def inline_view(crate, body, depth=3, keep=(), policy=None, max_blocks=1500):
             for i in dead:
                 j["blocks"][i] = dict(j["blocks"][i], cleanup=True, dead=True)      # rules skip cleanup blocks
             nb = Body(crate, j)
+    if getattr(crate, "aliases", None):
+        for c in nb.calls:
+            if c.callee is not None and c.callee.target in crate.aliases:
+                c.callee.name = crate.aliases[c.callee.target]
     nb.pruned = pruned
     nb.inlined = inlined
     nb.origin = body
